@@ -2,6 +2,6 @@ SPECIFICATION Spec
 CONSTANTS
   Gen = FALSE
 VIEW mcview
-INVARIANTS TypeOK CacheHit SentinelIsLoop
+INVARIANTS TypeOK CacheHit SentinelIsLoop HostReachable
 PROPERTIES Laws
 CHECK_DEADLOCK FALSE
